@@ -267,6 +267,22 @@ def run_lex_stream(ctx):
     lex_compare(ctx, 'lex-exhaustive-sub9', ex, segment_spec=True)
     ctx.count('lex_exhaustive_sub9_len_le_%d' % L, len(ex))
     ctx.streams.append({'stream': 'lex-exhaustive-sub9', 'cases': len(ex), 'exhaustive_upto_len': L})
+    # keyword near-misses: every keyword with one glyph replaced by every other keyword glyph (and with one glyph
+    # dropped / doubled), alone and embedded between letters — a recogniser that accepts a sequence which is not a
+    # documented keyword (merged switch arms, a lost look-ahead test) shows up here
+    near = set()
+    for kw in KEYWORDS:
+        g = [ord(c) for c in kw]
+        for i in range(len(g)):
+            for r in KW_GLYPHS:
+                if r != g[i]:
+                    near.add(tuple(g[:i] + [r] + g[i + 1:]))
+            near.add(tuple(g[:i] + g[i + 1:]))
+            near.add(tuple(g[:i] + [g[i]] + g[i:]))
+    near = [list(t) for t in sorted(near) if t]
+    near_all = near + [[0x7532] + t + [0x4E59] for t in near] + [t + [0x6B21, 0x6570] for t in near]
+    lex_compare(ctx, 'lex-keyword-near-miss', near_all, segment_spec=True)
+    ctx.streams.append({'stream': 'lex-keyword-near-miss', 'cases': len(near_all)})
     # random over the whole alphabet, and the structured kinds
     plan = [('random', n * 5 // 10), ('segment', n // 10), ('comments', n // 10), ('strings', n * 15 // 100),
             ('indent', n * 15 // 100)]
